@@ -4,10 +4,18 @@ source the sink receiving most of it.
 
 All statements are about `ColoVerif.Transp` (Model/Transp.lean, Model/TranspCert.lean), the
 definitions `drv_C13` executes against the C++ (`harness/h_C13.cpp`).
+
+Everything is proved for all inputs of any size: `ssp_optimal` (the solver returns a feasible plan of
+minimum cost on every well-formed problem), `ssp_terminates`, `ssp_feasible`, `ssp_assignment`,
+`toAssignment_argmax`, `increaseCapacity_covers`, `cert_optimal`.  Helper lemmas:
+`Proofs/TranspSsp2{Defs,Heap,Nonneg,Queue,Step,Walk,TreeA,TreeB,Tree,Inv,Update,Main,Solve,Witness}.lean`.
 -/
 import ColoVerif.Proofs.TranspCert
 import ColoVerif.Proofs.Transp
 import ColoVerif.Proofs.TranspSsp
+import ColoVerif.Proofs.TranspSsp2Nonneg
+import ColoVerif.Proofs.TranspSsp2Solve
+import ColoVerif.Proofs.TranspSsp2Witness
 
 namespace ColoVerif.C13
 open ColoVerif.Transp
@@ -89,46 +97,41 @@ theorem increaseCapacity_covers (p : Problem) (hn : 0 < p.nbSinks) :
 example : (Problem.make [1, 1, 1] [4, 4] [[0, 0], [0, 0], [0, 0]]).increaseCapacity.capacities = [3, 3, 2] := by
   decide
 
-/-! ### the solver -/
+/-! ### the solver
 
-/-- **Universal statement of feasibility + termination (not proved for all inputs).**  On every
-well-formed problem (`check()` passes) with total demand ≤ total capacity the model of `solve()` ends
-without running out of fuel, without a failed `assert` and without undefined behaviour, and its plan
-is feasible. -/
-def ssp_feasible_full_statement : Prop :=
-  ∀ p : Problem, p.check = true → p.totalDemand ≤ p.totalCapacity →
-    ∃ q, solve p = .ok q ∧ Feasible q q.allocations
+`WellFormed p` is the precondition of C13: `check()` passes (positive demands and capacities, consistent
+sizes), total demand ≤ total capacity, and `3·|cost| < INT_MAX` for every stored (fixed-point) cost.
+The last clause is what keeps every `sendingCost_ + cost` the solver forms below the `INT_MAX` sentinel
+used by `bestSink`/`updateTree` (and, in the C++, what keeps `int` arithmetic from overflowing);
+`costsFromIntegers` scales float costs to `|cost| ≤ INT_MAX/(4·nbSinks)`.  The driver evaluates
+`costBoundOk` on every solved instance (`bound ok`).  It cannot be dropped: `ssp_cost_bound_needed`. -/
 
-/-- the termination half on its own: every fuelled loop of the model ends before its fuel does -/
-def ssp_terminates_full_statement : Prop :=
-  ∀ p : Problem, p.check = true → p.totalDemand ≤ p.totalCapacity → ∃ q, solve p = .ok q
+/-- the precondition of the universal theorems, in the executable form the driver evaluates -/
+def WellFormed (p : Problem) : Prop :=
+  p.check = true ∧ p.totalDemand ≤ p.totalCapacity ∧ costBoundOk p = true
 
-/-- **Flow conservation of `sendSource` (all inputs, any size).**  Whenever the model of `solve()`
-returns a result at all — i.e. no `assert` of the code failed, no `top()` of an empty queue / index
-out of range / cycle in `sinkParent_` occurred and no loop ran out of fuel — the problem data is
-unchanged, *every source is fully allocated* and *no sink exceeds its capacity*.
-(Invariant: column sums = amount sent so far, row sum + `remainingCapa_` = capacity,
-`remainingCapa_ ≥ 0`; the amount moved along the parent chain is at most the free capacity at the
-root, and both walks along `sinkParent_` end at the same root.)
-
-Missing w.r.t. `ssp_feasible_full_statement`: (1) non-negativity of every entry — it needs the lazy
-priority-queue invariant (`top()` has a positive allocation, at least the amount moved) and the
-correctness of the libstdc++ heap operations; (2) that `solve` returns `.ok` (termination of
-`updateTree`, acyclicity of `sinkParent_`, the `assert`s).  Both are established per explored
-instance instead: the driver's answer `status ok` / `cert ok` (`checkCert` includes non-negativity)
-is compared with the real code on every case, and the direct oracle checks them on the C++ output. -/
-theorem ssp_feasible_partial (p q : Problem) (hc : ∀ i, 0 ≤ p.capacity i) (hd : ∀ j, 0 ≤ p.demand j)
+/-- **Feasibility of every returned plan (all inputs, any size, any costs).**  Whenever the model of
+`solve()` returns a result at all — i.e. no `assert` of the code failed, no `top()` of an empty queue /
+index out of range / cycle in `sinkParent_` occurred and no loop ran out of fuel — the problem data is
+unchanged and the plan is feasible: *every source is fully allocated*, *no sink exceeds its capacity*
+and *no allocation is negative*.
+(Flow conservation: column sums = amount sent so far, row sum + `remainingCapa_` = capacity,
+`remainingCapa_ ≥ 0`, both walks along `sinkParent_` end at the same root.  Non-negativity: a
+successful walk visits pairwise distinct sinks, so the second walk finds each sink's row and queues
+as the first walk saw them; after `emplace` the top of a queue is the old top or the new source; the
+amount moved is at most the allocation of every old top and at most the free capacity at the root.) -/
+theorem ssp_feasible (p q : Problem) (hc : ∀ i, 0 ≤ p.capacity i) (hd : ∀ j, 0 ≤ p.demand j)
     (h : solve p = .ok q) :
     q.capacities = p.capacities ∧ q.demands = p.demands ∧ q.costs = p.costs ∧
-    (∀ j, j < p.nbSources → colSum q.allocations p.nbSinks j = p.demand j) ∧
-    (∀ i, rowSum q.allocations p.nbSources i ≤ p.capacity i) := by
+    Feasible p q.allocations := by
+  have hnn := solve_nonneg p q h
   unfold solve at h
   split at h; · exact absurd h (by simp)
   rename_i s hs
   injection h with h; subst h
   unfold run at hs
   have hi := runSources_inv p hd _ _ _ _ (initSt_inv p hc) hs
-  refine ⟨rfl, rfl, rfl, fun j hj => ?_, fun i => ?_⟩
+  refine ⟨rfl, rfl, rfl, fun i j _ _ => hnn i j, fun j hj => ?_, fun i _ => ?_⟩
   · have := hi.col j
     rw [count_sorted] at this
     simp only [hj, if_true] at this
@@ -138,23 +141,71 @@ theorem ssp_feasible_partial (p q : Problem) (hc : ∀ i, 0 ≤ p.capacity i) (h
     simp only [] at h1 h2 ⊢
     omega
 
-/- Non-vacuity of `solve p = .ok q`: `solve` uses `List.mergeSort` and the well-founded `pushHeapLoop`,
-which the kernel's `decide` does not unfold; the compiled driver answers `status ok` on every one of
-the explored instances (≈70 000 per quick run, see evidence/C13.json). -/
+/-- **Termination / no failure (all well-formed inputs, any size).**  The model of `solve()` returns a
+plan: no `assert` fails (`maxSent > 0`, `remainingCapa_[snk1] == 0`, `!queues_[sink][dst].empty()`,
+`sent > 0`), `top()` is never taken on an empty queue, every index is in range, `sinkParent_` is acyclic
+(each walk ends within `nbSinks` steps at a sink with free capacity), and no fuelled loop runs out:
+`updateTree` makes at most `nbSinks·2³¹` rounds (`#open + Σ labels` decreases, labels stay in
+`[0, INT_MAX]`), `sendSource(src)` at most `demand(src)` rounds, `updateSinkQueues` at most `size` pops. -/
+theorem ssp_terminates (p : Problem) (h : WellFormed p) : ∃ q, solve p = .ok q := by
+  obtain ⟨q, hq, _⟩ := solve_total p h.1 h.2.1 ((costBoundOk_iff p).mp h.2.2)
+  exact ⟨q, hq⟩
 
-/-- **Universal optimality (not proved for all inputs).** -/
-def ssp_optimal_full_statement : Prop :=
-  ∀ p : Problem, p.check = true → p.totalDemand ≤ p.totalCapacity →
-    ∃ q, solve p = .ok q ∧ Feasible q q.allocations ∧ ∀ y, Feasible q y → costOf q q.allocations ≤ costOf q y
+/-- **C13 for the solver, universally (all well-formed inputs, any size).**  `solve()` returns a plan
+with the problem data unchanged in which every source is fully allocated, no sink exceeds its capacity,
+no allocation is negative, *and whose total cost is minimal among all feasible plans*.  The proof
+maintains the successive-shortest-path invariant (`Good` in `Proofs/TranspSsp2Inv.lean`): the lazy
+priority queues of every full sink are min-heaps holding every source present in the sink with its
+moving cost and a live top (libstdc++ `make_heap/push_heap/pop_heap` proved to keep the heap property and
+the contents); `sendingCost_` is a dual potential — non-negative, zero on sinks with free capacity, every
+source sits only in sinks that are cheapest for it w.r.t. `cost + sendingCost_` —; tree edges are tight
+and `sinkParent_` is acyclic; an augmentation along the tree keeps all reduced costs non-negative, the
+lazily skipped `updateTree` is justified because an edge cost that did not go up is still tight, and
+`updateTree` (label-correcting search) recomputes a potential that dominates the old one.  At the end
+the potentials form a certificate accepted by the verified checker `checkCert`; optimality is then
+`cert_optimal` (weak duality). -/
+theorem ssp_optimal (p : Problem) (h : WellFormed p) :
+    ∃ q, solve p = .ok q ∧ q.capacities = p.capacities ∧ q.demands = p.demands ∧ q.costs = p.costs ∧
+      Feasible p q.allocations ∧ (∃ u v, checkCert p q.allocations u v = true) ∧
+      ∀ y, Feasible p y → costOf p q.allocations ≤ costOf p y := by
+  obtain ⟨q, hq, h1, h2, h3, hf, u, v, hcert⟩ := solve_total p h.1 h.2.1 ((costBoundOk_iff p).mp h.2.2)
+  exact ⟨q, hq, h1, h2, h3, hf, ⟨u, v, hcert⟩, (cert_optimal p q.allocations u v hcert).2⟩
 
-/-- **Per-instance route to optimality.**  If on an instance the driver's verdict is `cert ok`
-(`certifies` holds for the plan returned by the model, which the correspondence shows to be the
-C++ plan entry by entry) then that plan is feasible — non-negative included — and of minimum cost
-among *all* feasible plans.  Optimality of every explored instance follows from this theorem, not
-from comparison with another solver.  Missing w.r.t. `ssp_optimal_full_statement`: that
-`certifies` holds for every input (the successive-shortest-path invariant: reduced costs stay
-non-negative on the residual graph). -/
-theorem ssp_optimal_partial (p q : Problem) (h : solve p = .ok q) (hcert : certifies q q.allocations = true) :
+/-- **The derived assignment on the solver's plan.**  For every plan returned by `solve` the
+non-negativity premise of `toAssignment_argmax` holds, so `toAssignment()` gives each source a valid
+sink that receives at least as much of it as every sink, and strictly more than every earlier sink. -/
+theorem ssp_assignment (p q : Problem) (hc : ∀ i, 0 ≤ p.capacity i) (hd : ∀ j, 0 ≤ p.demand j)
+    (h : solve p = .ok q) (src : Nat) (hs : src < q.nbSources) (hn : 0 < q.nbSinks) :
+    q.toAssignment.length = q.nbSources ∧
+    q.toAssignment.getD src 0 < q.nbSinks ∧
+    (∀ i, i < q.nbSinks → q.allocation i src ≤ q.allocation (q.toAssignment.getD src 0) src) ∧
+    (∀ i, i < q.toAssignment.getD src 0 → q.allocation i src < q.allocation (q.toAssignment.getD src 0) src) := by
+  obtain ⟨e1, e2, _, hf⟩ := ssp_feasible p q hc hd h
+  refine toAssignment_argmax q src hs hn (fun i hi => hf.nonneg i src ?_ ?_)
+  · unfold Problem.nbSinks at hi ⊢; rw [← e1]; exact hi
+  · unfold Problem.nbSources at hs ⊢; rw [← e2]; exact hs
+
+/-- non-vacuity of `WellFormed` (3 sinks × 3 sources, one source split between two sinks; the driver's
+answer is `alloc 2 1 0 | 0 1 0 | 0 0 2`), hence of `solve p = .ok q` in `ssp_feasible` -/
+example : WellFormed witnessPb := witness_hyps
+example : ∃ q, solve witnessPb = .ok q := ssp_terminates _ witness_hyps
+
+/-- **The bound on the costs cannot be dropped.**  With costs beyond `INT_MAX/3` (whose sums the C++
+`int` arithmetic could not even form) the `INT_MAX` sentinel of `bestSink` is passed: on this
+well-formed-but-for-the-bound 2 × 1 problem the model returns the plan `[[1],[0]]` although `[[0],[1]]`
+is feasible and strictly cheaper.  (Evaluated by kernel reduction.) -/
+theorem ssp_cost_bound_needed :
+    ∃ p q y, p.check = true ∧ p.totalDemand ≤ p.totalCapacity ∧ solve p = .ok q ∧
+      Feasible p y ∧ costOf p y < costOf p q.allocations :=
+  ⟨bigCostPb, _, [[0], [1]], bigCost_hyps.1, bigCost_hyps.2, bigCost_solve,
+    (primalOk_iff _ _).mp bigCost_better.1, bigCost_better.2⟩
+
+/-- **Per-instance route to optimality (any costs).**  If on an instance the driver's verdict is
+`cert ok` (`certifies` holds for the plan returned by the model, which the correspondence shows to be the
+C++ plan entry by entry) then that plan is feasible and of minimum cost among all feasible plans.
+Subsumed by `ssp_optimal` on well-formed inputs; it remains the only statement for instances that
+violate the bound on the costs. -/
+theorem ssp_optimal_of_cert (p q : Problem) (h : solve p = .ok q) (hcert : certifies q q.allocations = true) :
     Feasible p q.allocations ∧ ∀ y, Feasible p y → costOf p q.allocations ≤ costOf p y := by
   have e : q = { p with allocations := q.allocations } := by
     unfold solve at h
@@ -166,5 +217,9 @@ theorem ssp_optimal_partial (p q : Problem) (h : solve p = .ok q) (hcert : certi
     constructor <;> (intro hh; exact ⟨hh.nonneg, hh.demand, hh.capacity⟩)
   have c : ∀ y, costOf q y = costOf p y := by intro y; rw [e]; rfl
   exact ⟨(f _).mp hq.1, fun y hy => by rw [← c, ← c]; exact hq.2 y ((f y).mpr hy)⟩
+
+/-- non-vacuity of `ssp_optimal_of_cert` (2 sinks × 1 source, evaluated by the kernel) -/
+example : ∃ p q, solve p = .ok q ∧ certifies q q.allocations = true :=
+  ⟨smallPb, _, small_solve, small_cert⟩
 
 end ColoVerif.C13
